@@ -401,6 +401,14 @@ LEAVES: list[Con] = [
     # inheritance
     Con("{% extends 'base' %}", site=Site("extends", "base"), top_only=True),
     Con("{% extends 'mid' %}", site=Site("extends", "mid"), top_only=True),
+    # the implicit binding: `with` / `for` without `as` binds the partial's name up to its first dot
+    _inc("p", " with $y.a", ("p",)),
+    _ren("p", " for $a", ("p", "forloop")),
+    _inc("row.html"),
+    _ren("row.html"),
+    _inc("row.html", " for $a", ("row",)),
+    _ren("row.html", " with $y, v: $x", ("row", "v"), ("v",)),
+    _ren("row.html", " with $y as v", ("v",)),
 ]
 
 BLOCKS: list[Con] = [
@@ -448,7 +456,9 @@ def _I(src: str, body: Optional[list[Item]] = None, **kw: Any) -> Item:
 
 # partial templates (fixed): each is a program of hand-written items
 PARTIAL_ITEMS: dict[str, list[Item]] = {
-    "p": [_I("<p:{{ $v }}{{ $x | upcase }}{{ $s }}>")],
+    # p and row.html refer to a variable named like themselves (the implicit `with` / `for` binding of a partial)
+    "p": [_I("<p:{{ $v }}{{ $x | upcase }}{{ $s }}{{ $p.t }}>")],
+    "row.html": [_I("<row:{{ $row.c | default: $v }}>")],
     "q": [
         _I("<q:"),
         _I("{% assign s = 'qs' %}", assigns=("s",)),
@@ -489,9 +499,11 @@ PARTIAL_ITEMS: dict[str, list[Item]] = {
 # actually read from the render arguments; D4 is the all-missing assignment.
 DATA: list[tuple[str, dict[str, Any]]] = [
     ("D1", {"x": 1, "y": {"a": "A", "b": [1, 2], 1: "one"}, "a": [1, 2, 3], "v": "gv", "s": "gs", "w": "gw",
-            "a b": {"c": "abc"}, "c": 9, "forloop": {"index": "gf"}, "q": "gq", "args": [1], "block": {"super": "gb"}}),
-    ("D2", {"x": "a", "y": {"a": None, "b": []}, "a": [], "v": "gv", "s": "gs", "w": "gw", "a b": {}, "c": 9}),
-    ("D3", {"x": False, "y": {"a": 0, "b": [7]}, "a": [4], "v": False, "s": "gs", "w": "gw"}),
+            "a b": {"c": "abc"}, "c": 9, "forloop": {"index": "gf"}, "q": "gq", "args": [1], "block": {"super": "gb"},
+            "p": {"t": "gp"}, "row": {"c": "gr"}}),
+    ("D2", {"x": "a", "y": {"a": None, "b": []}, "a": [], "v": "gv", "s": "gs", "w": "gw", "a b": {}, "c": 9,
+            "p": {"t": "gp"}, "row": {"c": None}}),
+    ("D3", {"x": False, "y": {"a": 0, "b": [7]}, "a": [4], "v": False, "s": "gs", "w": "gw", "p": "gp", "row": "gr"}),
     ("D4", {}),
 ]
 ENV_GLOBALS = {"g": "env-g"}
@@ -660,7 +672,6 @@ def _idx(menu: list[Con], wanted: list[str]) -> list[int]:
 CORE_LEAVES = _idx(LEAVES, [
     "{{ $v }}",
     "{{ $s | append: $w }}",
-    "{{ $y[$x] }}{{ $a[0] }}",
     "{{ $x | upcase if $v else $w || append: $s }}",
     "{% assign s = $x | append: $w %}",
     "{% assign v = $a | first %}",
@@ -673,7 +684,6 @@ CORE_LEAVES = _idx(LEAVES, [
     "{% include 'r', v: $s, x: 1 %}",
     "{% render 'p' %}",
     "{% render 'p', v: $x %}",
-    "{% render 'p' with $y.a as v %}",
     "{% render 'p' for $a as v %}",
     "{% render 'p' with $x as s, v: $w %}",
     "{% render 'q' %}",
@@ -682,6 +692,8 @@ CORE_LEAVES = _idx(LEAVES, [
     "{% call m $w, q: $y.a %}",
     "{% extends 'base' %}",
     "{% extends 'mid' %}",
+    "{% include 'row.html' %}",
+    "{% render 'row.html' with $y as v %}",
 ])
 CORE_BLOCKS = _idx(BLOCKS, [
     "{% if $x == 1 %}#{% elsif $v %}{B}{% else %}#{{ $w }}{% endif %}",
